@@ -23,7 +23,7 @@ class Handler(object):
         self.idx, self.world = idx, world
 
     def handle(self, *args, **ctx):
-        self.world.deliver(self.idx, args, ctx)
+        return self.world.deliver(self.idx, args, ctx)
 
 
 class CallableObj(object):
@@ -31,7 +31,7 @@ class CallableObj(object):
         self.idx, self.world = idx, world
 
     def __call__(self, *args, **ctx):
-        self.world.deliver(self.idx, args, ctx)
+        return self.world.deliver(self.idx, args, ctx)
 
 
 class World(object):
@@ -52,7 +52,7 @@ class World(object):
             kind = i % 4
             if kind == 0:
                 def f(*args, _i=i, **ctx):
-                    self.deliver(_i, args, ctx)
+                    return self.deliver(_i, args, ctx)
                 f.idx = i
                 self.cbs.append(lambda f=f: f)
             elif kind == 1:
@@ -78,12 +78,14 @@ class World(object):
 
     def deliver(self, i, args, ctx):
         self.deliveries += 1
+        self.returns = getattr(self, 'returns', None) or [False, None, 0, True, '', 'stop', self.t, StopIteration, NotImplemented, (), [False]]
         self.log.append((i, args, tuple(sorted(ctx.items()))))
         if self.deliveries > MAX_DELIVERIES:
             return
         for act in self.scripts.get(i, ()):
             if self.depth < 3:
                 self.apply(act, nested=True)
+        return self.returns[(self.deliveries + i) % len(self.returns)]      # False, None, 0, the emitter itself ...: delivery goes on regardless
 
     def apply(self, act, nested=False):
         kind, name = act[0], act[1]
